@@ -16,3 +16,8 @@ for _m in sorted(pkgutil.iter_modules([str(_pkg)]), key=lambda m: m.name):
     _mod = importlib.import_module("reg." + _m.name)
     REGISTRY.update(getattr(_mod, "REG", {}))
     NOT_CLAIMED.update(getattr(_mod, "NOT_CLAIMED", {}))
+
+# Only properties listed in harness/enabled.txt are claimed (groups still under construction stay out of MANIFEST.json).
+_enabled = {l.strip() for l in (Path(__file__).resolve().parent / "enabled.txt").read_text().split() if l.strip()}
+PENDING = {k: v for k, v in REGISTRY.items() if k not in _enabled}
+REGISTRY = {k: v for k, v in REGISTRY.items() if k in _enabled}
